@@ -885,6 +885,23 @@ func (n *c13Node) connect(base, height int64) *c13Peer {
 	return p
 }
 
+// status: a further StatusResponse from p
+func (n *c13Node) status(p *c13Peer, base, height int64) {
+	if !p.IsRunning() {
+		return
+	}
+	n.bcR.ReceiveEnvelope(p2p.Envelope{ChannelID: BlockchainChannel, Src: p,
+		Message: &bcproto.StatusResponse{Base: base, Height: height}})
+}
+
+// disconnect: the connection of p breaks (what the switch does then: stop the peer, RemovePeer
+// on every reactor)
+func (n *c13Node) disconnect(p *c13Peer) {
+	if p.IsRunning() {
+		n.sw.StopPeerForError(p, "verif: connection closed by the peer")
+	}
+}
+
 // deliver hands a BlockResponse from p to the reactor, as the connection would
 func (n *c13Node) deliver(p *c13Peer, b *types.Block) {
 	if !p.IsRunning() {
@@ -1254,6 +1271,13 @@ func c13Proto(b *types.Block) *tmproto.Block {
 // peer answers, 11/12/13 just after — carrying the genuine block (8, 11), the never-committed alt
 // block (9, 12) or a block with a garbage signature in its LastCommit (10, 13): AddBlock must
 // refuse it and report the pusher ("invalid peer"), which gets it stopped.
+// 14..18 lie in their StatusResponse: they announce a top 40 heights above the chain and, at the
+// first BlockRequest they receive, 14 stay silent (the peer timeout removes them), 15 close the
+// connection, 16 send a second StatusResponse with their spec'd top and stay silent, 17 send it
+// and close the connection, 18 send it and answer honestly from then on.  14 and 15 are handled
+// by the code as it is (removePeer recomputes maxPeerHeight when the peer's height IS the
+// maximum); 16..18 leave pool.maxPeerHeight at the phantom height (finding F79) and are
+// generated only with VERIF_C13_F79=1 until the repair is in the repository.
 // base, height, start, tip are positions j in the world's chain (height ih+j-1).
 type c13PeerSpec struct {
 	script       uint64
@@ -1269,7 +1293,14 @@ type c13Scen struct {
 }
 
 var c13ScriptNames = []string{"honest", "alt-block", "forged-commit", "padded-tip-commit", "far-height", "twice", "foreign-address-tip-commit",
-	"other-partset-tip-commit", "push-genuine-before", "push-alt-before", "push-forged-before", "push-genuine-after", "push-alt-after", "push-forged-after"}
+	"other-partset-tip-commit", "push-genuine-before", "push-alt-before", "push-forged-before", "push-genuine-after", "push-alt-after", "push-forged-after",
+	"status-huge-silent", "status-huge-disconnect", "status-huge-lower-silent", "status-huge-lower-disconnect", "status-huge-lower-honest"}
+
+// c13F79: generate the scenarios that need the repair of finding F79 (REMOVE THIS GATE once
+// fixes/F79-blockpool-max-peer-height-follows-peers.diff is applied to the repository)
+func c13F79() bool { return os.Getenv("VERIF_C13_F79") == "1" }
+
+const c13Phantom = 40 // how far above the chain a status liar's first announcement is
 
 func c13Scenarios(r *vg.Rand, n int) []c13Scen {
 	L := c13L
@@ -1290,7 +1321,16 @@ func c13Scenarios(r *vg.Rand, n int) []c13Scen {
 		{"push-genuine-after", 1, 0, L, []c13PeerSpec{{11, 1, L}, {0, 1, L}, {0, 1, L}}},
 		{"push-alt-after", 2, 2, L, []c13PeerSpec{{12, 1, L}, {0, 1, L}, {0, 1, L}}},
 		{"push-forged-after", 0, 0, L, []c13PeerSpec{{13, 1, L}, {0, 1, L}, {0, 1, L}}},
+		{"status-huge-silent", 1, 0, L, []c13PeerSpec{{14, 1, L}, {0, 1, L}}},
+		{"status-huge-disconnect", 2, 1, L, []c13PeerSpec{{15, 1, L}, {0, 1, L}}},
 	}
+	if c13F79() {
+		ss = append(ss,
+			c13Scen{"status-huge-lower-silent", 0, 0, L, []c13PeerSpec{{16, 1, 2}, {0, 1, L}}},
+			c13Scen{"status-huge-lower-disconnect", 1, 0, L, []c13PeerSpec{{17, 1, L}, {0, 1, L}}},
+			c13Scen{"status-huge-lower-honest", 2, 1, L, []c13PeerSpec{{18, 1, L}, {0, 1, L}}})
+	}
+	n += len(ss) - 16 // the count asked for is on top of the directed scenarios beyond the first 16
 	nw := len(c13GetWorlds())
 	for len(ss) < n {
 		k := len(ss)
@@ -1340,6 +1380,12 @@ func c13HandScenarios(wi int) []c13Scen {
 		{"fresh-otherpartset-at-3", wi, 0, 2, with(c13PeerSpec{7, 3, 3}, 2, 2)},
 		{"fresh-push-alt-tip3", wi, 0, 3, with(c13PeerSpec{9, 1, 3}, 3, 2)},
 		{"restart1-push-genuine-tip4", wi, 1, 4, with(c13PeerSpec{8, 1, 4}, 4, 2)},
+		{"fresh-status-huge-disconnect-tip3", wi, 0, 3, with(c13PeerSpec{15, 1, 3}, 3, 1)},
+	}
+	if c13F79() {
+		ss = append(ss,
+			c13Scen{"fresh-status-huge-lower-disconnect-tip3", wi, 0, 3, with(c13PeerSpec{17, 1, 3}, 3, 1)},
+			c13Scen{"restart1-status-huge-lower-honest-tip4", wi, 1, 4, with(c13PeerSpec{18, 1, 4}, 4, 1)})
 	}
 	if len(c13GetWorlds()[wi].upds) > 0 {
 		// the world changes its validator set at some of the positions 3, 4, 5: hand-overs at,
@@ -1376,6 +1422,11 @@ type c13ScenResult struct {
 	seen1     *c13Commit
 	verified  bool
 	reqs      string // the pool's next requesters when the sync ended (diagnostic only)
+	// the pool when the sync ended: pool.height, the heights its peers report (sorted),
+	// IsCaughtUp(), maxPeerHeight
+	poolH, poolMax int64
+	poolPeers      []int64
+	caughtUp       bool
 }
 
 func c13RunScen(sc c13Scen, r *vg.Rand) *c13ScenResult {
@@ -1387,12 +1438,42 @@ func c13RunScen(sc c13Scen, r *vg.Rand) *c13ScenResult {
 	var foreignReal *types.Commit
 	top := int64(0)
 	for _, ps := range sc.peers {
-		node.connect(w.H(ps.base), w.H(ps.height))
+		if ps.script >= 14 {
+			node.connect(w.H(1), w.H(L)+c13Phantom) // the status lie
+		} else {
+			node.connect(w.H(ps.base), w.H(ps.height))
+		}
 		if ps.height > top {
 			top = ps.height
 		}
 	}
 	used := make([]bool, len(sc.peers))
+	acted := make([]bool, len(sc.peers))
+	// the status liars: what they do at the first request they receive; true = handled here
+	statusLiar := func(rq c13Req) bool {
+		i := int(rq.p.num - 1)
+		ps := sc.peers[i]
+		if ps.script < 14 {
+			return false
+		}
+		if !acted[i] {
+			acted[i] = true
+			what := "stays silent"
+			if ps.script >= 16 {
+				node.status(rq.p, w.H(ps.base), w.H(ps.height))
+				what = fmt.Sprintf("sends StatusResponse [%d,%d]", w.H(ps.base), w.H(ps.height))
+				if ps.script == 16 {
+					what += " and stays silent"
+				}
+			}
+			if ps.script == 15 || ps.script == 17 {
+				node.disconnect(rq.p)
+				what += ", closes the connection"
+			}
+			res.journal = append(res.journal, fmt.Sprintf("peer %d (announced top %d): asked for height %d, %s", rq.p.num, w.H(L)+c13Phantom, rq.height, what))
+		}
+		return ps.script != 18 // 18 answers honestly after its second status
+	}
 	answer := func(rq c13Req) {
 		i := int(rq.p.num - 1)
 		ps, j := sc.peers[i], w.J(rq.height)
@@ -1483,7 +1564,7 @@ func c13RunScen(sc c13Scen, r *vg.Rand) *c13ScenResult {
 			} else {
 				node.deliver(rq.p, w.blocks[j])
 			}
-		default: // the pushers answer their own requests honestly
+		default: // the pushers (and 18 after its second status) answer their own requests honestly
 			node.deliver(rq.p, w.blocks[j])
 		}
 	}
@@ -1525,6 +1606,9 @@ func c13RunScen(sc c13Scen, r *vg.Rand) *c13ScenResult {
 		}
 	}
 	serve := func(rq c13Req) {
+		if statusLiar(rq) {
+			return
+		}
 		push(rq, false)
 		answer(rq)
 		push(rq, true)
@@ -1563,6 +1647,15 @@ LOOP:
 		pn, has := node.reqView(h)
 		res.reqs += fmt.Sprintf(" %d:(peer %d, block %v)", h, pn, has)
 	}
+	pool := node.bcR.pool
+	pool.mtx.Lock()
+	res.poolH, res.poolMax = pool.height, pool.maxPeerHeight
+	for _, bp := range pool.peers {
+		res.poolPeers = append(res.poolPeers, bp.height)
+	}
+	pool.mtx.Unlock()
+	sort.Slice(res.poolPeers, func(a, b int) bool { return res.poolPeers[a] < res.poolPeers[b] })
+	res.caughtUp = pool.IsCaughtUp()
 	node.bcR.Stop() //nolint:errcheck
 	time.Sleep(20 * time.Millisecond)
 	hh := node.ex.blockStore.Height()
@@ -1637,10 +1730,10 @@ func (sc c13Scen) descr(w *c13World, res *c13ScenResult, stream int) string {
 	}
 	return fmt.Sprintf("scenario %s: world %d (%v, InitialHeight %d), node starts with the first %d blocks (State.LastBlockHeight %d, consensus.NewState at start ok=%v); %s; responses in PRNG order (stream %d). Bad answers that entered a requester: %v. "+
 		"Observed: stored ids by position %v, saved State.LastBlockHeight %d, SwitchToConsensus called by the blockchain reactor=%v with state.LastBlockHeight=%d (-1 = no call) skipWAL=%v -> %d (0 returned,1 panicked,2 not called,3 NewState at start panicked) %q, consensus height afterwards %d, LastCommit class %d (0 nil,1 = stored seen commit,2 other,3 n/a), running=%v; "+
-		"consensus.NewState on the result=%d (0 ok,1 panic,2 not run), seen commit of last block class %d, every stored block and seen commit verified by the harness=%v; pool requesters at the end (height:(peer, has block), peer -1 = none)%s",
+		"consensus.NewState on the result=%d (0 ok,1 panic,2 not run), seen commit of last block class %d, every stored block and seen commit verified by the harness=%v; pool at the end: height %d, heights its peers report %v, maxPeerHeight %d, IsCaughtUp()=%v; pool requesters at the end (height:(peer, has block), peer -1 = none)%s",
 		sc.name, sc.wi, w, w.ih, sc.start, res.h0, res.startOK, strings.Join(pds, "; "), stream, res.journal,
 		res.stored, res.h1, res.switched, res.hob.hs, res.hob.skipWAL, res.hob.sres, res.hob.msg, res.hob.height, res.hob.lcc, res.hob.running,
-		res.ho, res.seenClass, res.verified, res.reqs)
+		res.ho, res.seenClass, res.verified, res.poolH, res.poolPeers, res.poolMax, res.caughtUp, res.reqs)
 }
 
 func (sc c13Scen) scenTerm(res *c13ScenResult) string {
@@ -1657,7 +1750,8 @@ func (sc c13Scen) scenTerm(res *c13ScenResult) string {
 	}
 	tip, _ := sc.effTip(res)
 	return vg.App("CScen", vg.L(canon), vg.Z(sc.start), vg.ZL(res.stored), vg.Z(tip), vg.L(pts), vg.Z(res.nbad),
-		vg.B(res.switched), vg.N(ho), vg.N(res.seenClass))
+		vg.B(res.switched), vg.N(ho), vg.N(res.seenClass),
+		vg.Tup(vg.Z(res.poolH), vg.ZL(res.poolPeers), vg.B(res.caughtUp), vg.Z(res.poolMax)))
 }
 
 // effTip: the tip the node can be expected to reach: the top of the honest peers that stayed
@@ -1756,6 +1850,7 @@ func c13RunAll(scens []c13Scen, root *vg.Rand, streamBase int, want func(k int) 
 func TestVerifC13Scenario(t *testing.T) {
 	cs := vg.NewCases("C13", "c13_scen", "TM.C13.Exec")
 	root := vg.NewRand(vg.Seed())
+	defer c13ShortPeerTimeout()()
 	scens := c13Scenarios(root.Fork(999), vg.Scale(16, 140))
 	ids := make([]int, len(scens))
 	for k := range scens {
@@ -1781,7 +1876,16 @@ func TestVerifC13Scenario(t *testing.T) {
 
 // ------------------------------------------------------------------ TestVerifC13Handover
 
+// the scenarios run with a peer timeout of 2 s instead of 15 s (a package variable meant to be
+// overridden by tests): a silent peer with pending requests is removed after that time
+func c13ShortPeerTimeout() func() {
+	old := peerTimeout
+	peerTimeout = 2 * time.Second
+	return func() { peerTimeout = old }
+}
+
 func TestVerifC13Handover(t *testing.T) {
+	defer c13ShortPeerTimeout()()
 	cs := vg.NewCases("C13", "c13_hand", "TM.C13.Exec")
 	root := vg.NewRand(vg.Seed())
 	ws := c13GetWorlds()
